@@ -20,17 +20,19 @@ from checks import c01
 PID = "C03"
 RULE = ("configurations of (base, Moebius map, rotation, k, series length, inferred frame, time stamps, per-frame renumbering, solver, tension vector) "
         "within the deviation bound of a centre; non-trivial = reference system of full column rank; classes = (base, map, length, frame, times, solver, tension index)")
-BOUND = {"quick": "deviation bound 2 around the centre of one 11-cell base, every basis tension vector (20) + 3 patterns, series of 2..5 frames",
+BOUND = {"quick": "deviation bound 2 around the centre of one 11-cell base, every basis tension vector (20) + 3 patterns, series of 2..5 frames; the judged inference also after an adimensional solve of the same frame (same force matrix) and after a system-velocity query",
          "thorough": "d=2 on three bases, d=3 on one"}
 ASSUMPTIONS = ["tolerance = 3 x (5e-4 sqrt(rows)) / sigma_min(reference augmented system) + 10 x (matrix error) x sqrt(nnz) x |z| / sigma_min + solver term",
                "displacements are kept far inside the tracking bounds of C12 (|v| dt <= 3% of the smallest junction spacing)",
                "instances with a tangent mirrored by sign forcing (finding F1) give no verdict"]
-REQUIRED_TAGS = {"all": ["verdict", "first", "middle", "last", "unequal_times", "renumbered", "solver:lsq", "solver:lsq_linear", "basis_vector", "id0_on_junction"]}
+REQUIRED_TAGS = {"all": ["verdict", "first", "middle", "last", "unequal_times", "renumbered", "solver:lsq", "solver:lsq_linear", "basis_vector", "id0_on_junction", "after_adimensional_solve_same_matrix", "after_system_velocity"]}
 
 TIMES = {"equal": lambda n: [float(i) for i in range(n)],
          "unequal": lambda n: [0.0, 1.0, 4.0, 4.5, 6.5][:n],
          "offset": lambda n: [5.0 + 0.25 * i for i in range(n)],
-         "tiny": lambda n: [1e-3 * i for i in range(n)]}
+         "tiny": lambda n: [1e-3 * i for i in range(n)],
+         # stamps that start below zero: the value 0.0 falls on a frame that is not the first one (and on the last of two frames)
+         "negative": lambda n: [-3.0, 0.0] if n == 2 else [-3.0, -1.0, 0.0, 2.5, 4.0][:n]}
 VMAPS = [["id"], ["rev"], ["gap", 3, 7], ["off", 10 ** 6], ["swap0"], ["stored_rev"]]
 
 
@@ -80,10 +82,13 @@ class Dynamics(ProductSystem):
                 "k": [3, 1, 8],
                 "L": [3, 2, 4, 5],
                 "which": ["first", "middle", "last"],
-                "times": ["equal", "unequal", "offset", "tiny"],
+                "times": ["equal", "unequal", "offset", "tiny", "negative"],
                 "vm0": VMAPS, "vm1": VMAPS, "vm2": VMAPS, "vm3": VMAPS, "vm4": VMAPS,
                 "solver": [None, "lsq", "lsq_linear"],
                 "tvec": [["sin"], ["alt"], ["ramp"]] + [["basis", i] for i in range(n)],
+                # what happened on the same object before the judged inference: nothing | the same frame solved with adimensional
+                # velocities (the judged solve then re-uses that force matrix) | the system velocity of every frame queried
+                "pre": [None, "adimensional_solve", "system_velocity"],
             }
         return self._axes[base]
 
@@ -129,7 +134,18 @@ class Dynamics(ProductSystem):
         s, infos, ex = SC.build_series(spec)
         if ex is not None:
             return {"viol": [{"what": "ForSys construction raised", "detail": fsutil.exc_str(ex)}], "tags": [], "cls": "exc"}
-        r = SC.solve_frame(s, f, at, infos[f], method=cfg["solver"], allow_negatives=False, solve_kwargs={"b_matrix": "velocity"})
+        rebuild = True
+        if cfg.get("pre") == "adimensional_solve":
+            SC.solve_frame(s, f, at, infos[f], method=None, allow_negatives=False, solve_kwargs={"b_matrix": "velocity", "adimensional_velocity": True, "velocity_normalization": 2.0})
+            rebuild = False
+            tags.append("after_adimensional_solve_same_matrix")
+        elif cfg.get("pre") == "system_velocity":
+            _, exq = fsutil.call(s.get_system_velocity_per_frame)
+            # the query builds every frame's matrix with the default options (angle limit pi: nothing is left out at the junctions
+            # of a Voronoi geometry, whose openings are all below pi); the judged solve re-uses the matrix it left for this frame
+            rebuild = exq is not None or f not in s.force_matrices
+            tags.append("after_system_velocity")
+        r = SC.solve_frame(s, f, at, infos[f], method=cfg["solver"], allow_negatives=False, solve_kwargs={"b_matrix": "velocity"}, rebuild=rebuild)
         if r.exc is not None:
             return {"viol": [{"what": "dynamic inference raised", "detail": fsutil.exc_str(r.exc)}], "tags": [], "cls": "exc"}
         if None in r.cols or sorted(r.cols) != sorted(ref["cols"]):
